@@ -503,7 +503,7 @@ func main() {
 	engine.Main(&engine.Spec{
 		Prop:  "C25",
 		Level: "model_checking",
-		Rule: "15 multi-threaded Elk scenarios (producer/consumer at capacities 0,1,2; two producers; close racing push; select with ready/unready cases; mutex-protected read-modify-write; RWMutex writer vs readers; WaitGroup; Once; stray read_unlock/unlock racing a pending reader/writer; two concurrent unlocks of one lock) on the real VM under the controlled scheduler: every schedule with at most B preemptions (quick 2, thorough 3) over scheduling points at every channel/lock/wait-group/once/go/select operation and after every release, ready select cases enumerated instead of random; " +
+		Rule: "15 multi-threaded Elk scenarios (producer/consumer at capacities 0,1,2; two producers; close racing push; select with ready/unready cases; mutex-protected read-modify-write; RWMutex writer vs readers; WaitGroup; Once; stray read_unlock/unlock racing a pending reader/writer; two concurrent unlocks of one lock) on the real VM under the controlled scheduler: every schedule with at most B preemptions (quick 3, thorough 4) over scheduling points at every channel/lock/wait-group/once/go/select operation and after every release, ready select cases enumerated instead of random; " +
 			"plus 14 single-threaded misuse sequences (unlock not held, negative wait group, push/pop/close on closed channel) that must raise Elk errors; oracle per scenario: delivery exactly once, per-producer FIFO, select takes only ready cases, mutual exclusion, run-once, no deadlock, no host panic/fatal; non-trivial = scenarios with at least 50 schedules",
 		Assume:      []string{"interpreter code between scheduling points runs atomically (critical sections contain an inner lock operation so that broken exclusion is observable)", "timers not modelled", "accesses racing between scheduling points are reported by the supplementary free-running pass under Go's race detector (case racepass/scenarios; the detector's send-racing-close report is an ordering diagnostic with a defined outcome and is ignored)"},
 		CaseTimeout: 15 * time.Minute,
@@ -513,9 +513,9 @@ func main() {
 			vm.CALL_STACK_SIZE = 64
 		},
 		Run: func(c *engine.Ctx) {
-			bound := 2
+			bound := 3
 			if c.Thorough {
-				bound = 3
+				bound = 4
 				caseBudget = 8 * time.Minute
 			}
 			for _, sc := range scens {
